@@ -292,7 +292,8 @@ def gen_estimator_cases(rng: Rng, tier):
     n = 1 if tier == "quick" else 4
     for s in range(n):
         seed = rng.randint(0, 10**6)
-        for est in ("ufpca_cov", "ufpca_inpro", "ufpca_2d", "mfpca_cov", "mfpca_inpro", "fcptpa", "psplines1", "psplines2", "localpoly"):
+        for est in ("ufpca_cov", "ufpca_inpro", "ufpca_2d", "ufpca_cov_big", "ufpca_inpro_big", "ufpca_pace", "ufpca_pace_irregular",
+                    "mfpca_cov", "mfpca_inpro", "mfpca_pace", "fcptpa", "psplines1", "psplines2", "localpoly"):
             yield dict(kind="est", est=est, seed=seed)
 
 
@@ -462,14 +463,36 @@ def _est_setup(est, seed):
     from FDApy.preprocessing.smoothing.psplines import PSplines
 
     rng = Rng(f"c16-est-{est}-{seed}")
-    if est in ("ufpca_cov", "ufpca_inpro"):
+
+    def richer(seed2):
+        """another dense 1-D dataset: more curves on a finer grid (for refits on richer data)"""
+        from FDApy.representation.argvals import DenseArgvals
+        from FDApy.representation.functional_data import DenseFunctionalData
+        from FDApy.representation.values import DenseValues
+
+        r2 = Rng(f"c16-richer-{seed2}")
+        return DenseFunctionalData(DenseArgvals({"input_dim_0": np.linspace(0, 1, 12)}), DenseValues(_dy(r2, (9, 12))))
+
+    if est in ("ufpca_cov", "ufpca_inpro", "ufpca_cov_big", "ufpca_inpro_big", "ufpca_pace"):
         data = make_subject("dense1d", seed)
-        method = "covariance" if est == "ufpca_cov" else "inner-product"
-        mk = lambda: UFPCA(n_components=2, method=method)  # noqa: E731
+        method = "covariance" if est in ("ufpca_cov", "ufpca_cov_big", "ufpca_pace") else "inner-product"
+        # `_big`: more components requested than the data can provide (7 grid points / 5 curves)
+        ncomp = 10 if est.endswith("_big") else 2
+        mk = lambda: UFPCA(n_components=ncomp, method=method)  # noqa: E731
         steps = [("fit", lambda e, c: e.fit(c["data"])), ("transform", lambda e, c: e.transform(c["data"], method="NumInt")),
                  ("inverse_transform", lambda e, c: e.inverse_transform(c["scores"]))]
-        if est == "ufpca_inpro":
+        if method == "inner-product":
             steps[1] = ("transform", lambda e, c: e.transform(method="InnPro"))
+        if est == "ufpca_pace":
+            steps[1] = ("transform", lambda e, c: e.transform(c["data"], method="PACE"))
+            steps.insert(2, ("transform", lambda e, c: e.transform(method="PACE")))
+        return mk, dict(data=data, alt=dict(data=richer(seed))), steps, "UFPCA"
+    if est == "ufpca_pace_irregular":
+        data = make_subject("irregular", seed)
+        mk = lambda: UFPCA(n_components=2, method="covariance")  # noqa: E731
+        steps = [("fit", lambda e, c: e.fit(c["data"], method_smoothing="LP")),
+                 ("transform", lambda e, c: e.transform(c["data"], method="PACE", method_smoothing="LP")),
+                 ("inverse_transform", lambda e, c: e.inverse_transform(c["scores"]))]
         return mk, dict(data=data), steps, "UFPCA"
     if est == "ufpca_2d":
         data = make_subject("dense2d", seed)
@@ -477,9 +500,14 @@ def _est_setup(est, seed):
         steps = [("fit", lambda e, c: e.fit(c["data"])), ("transform", lambda e, c: e.transform(method="InnPro")),
                  ("inverse_transform", lambda e, c: e.inverse_transform(c["scores"]))]
         return mk, dict(data=data), steps, "UFPCA"
-    if est in ("mfpca_cov", "mfpca_inpro"):
+    if est in ("mfpca_cov", "mfpca_inpro", "mfpca_pace"):
         data = make_subject("multivariate", seed)
         exps = [{"method": "UFPCA", "n_components": 2}, {"method": "UFPCA", "n_components": 2}]
+        if est == "mfpca_pace":
+            mk = lambda: MFPCA(n_components=2, method="covariance", univariate_expansions=exps)  # noqa: E731
+            steps = [("fit", lambda e, c: e.fit(c["data"], method_smoothing=None)), ("transform", lambda e, c: e.transform(c["data"], method="PACE")),
+                     ("inverse_transform", lambda e, c: e.inverse_transform(c["scores"]))]
+            return mk, dict(data=data, config=exps), steps, "MFPCA"
         if est == "mfpca_cov":
             mk = lambda: MFPCA(n_components=2, method="covariance", univariate_expansions=exps)  # noqa: E731
             steps = [("fit", lambda e, c: e.fit(c["data"], method_smoothing=None)), ("transform", lambda e, c: e.transform(c["data"], method="NumInt")),
@@ -488,7 +516,7 @@ def _est_setup(est, seed):
             mk = lambda: MFPCA(n_components=2, method="inner-product")  # noqa: E731
             steps = [("fit", lambda e, c: e.fit(c["data"], method_smoothing=None)), ("transform", lambda e, c: e.transform(method="InnPro")),
                      ("inverse_transform", lambda e, c: e.inverse_transform(c["scores"]))]
-        return mk, dict(data=data, config=exps), steps, "MFPCA"
+        return mk, dict(data=data, config=exps, alt=dict(data=make_subject("multivariate", seed + 7))), steps, "MFPCA"
     if est == "fcptpa":
         data = make_subject("dense2d", seed)
         m1, m2 = data.n_points
@@ -497,7 +525,7 @@ def _est_setup(est, seed):
         mk = lambda: FCPTPA(n_components=2)  # noqa: E731
         steps = [("fit", lambda e, c: e.fit(c["data"], penalty_matrices=c["mats"], alpha_range=c["ranges"], tolerance=1e-3, max_iteration=8)),
                  ("transform", lambda e, c: e.transform(c["data"])), ("inverse_transform", lambda e, c: e.inverse_transform(c["scores"]))]
-        return mk, dict(data=data, mats=mats, ranges=ranges), steps, "FCPTPA"
+        return mk, dict(data=data, mats=mats, ranges=ranges, alt=dict(data=make_subject("dense2d", seed + 7))), steps, "FCPTPA"
     if est in ("psplines1", "psplines2"):
         if est == "psplines1":
             x = np.array([float(v) for v in rng.grid(9)])
@@ -519,6 +547,9 @@ def _est_setup(est, seed):
         ctx = dict(x=x, y=y, w=w, pen=pen, xn=xn)
         if est == "psplines2":
             ctx["config"] = [ns, dg]
+        else:
+            x2 = np.linspace(float(x[0]), float(x[-1]), 15)
+            ctx["alt"] = dict(x=x2, y=_dy(rng, (15,)), w=np.ones(15))
         return mk, ctx, steps, "PSplines"
     if est == "localpoly":
         x = np.array([float(v) for v in rng.grid(12)])
@@ -554,6 +585,30 @@ def _raw_config(e):
                 v = e.__dict__[nm]
                 out[p] = v.copy() if isinstance(v, np.ndarray) else v
                 break
+    return out
+
+
+def _handed_out(e):
+    """The results a fitted estimator hands out: the values of its public properties and public
+    attributes that are not constructor arguments (found by reflection)."""
+    try:
+        params = {p for p in inspect.signature(type(e).__init__).parameters if p != "self"}
+    except (TypeError, ValueError):
+        params = set()
+    out = {}
+    for n in dir(type(e)):
+        if n.startswith("_") or n in params:
+            continue
+        if isinstance(inspect.getattr_static(type(e), n), property):
+            try:
+                v = getattr(e, n)
+            except Exception:  # noqa: BLE001
+                continue
+            if v is not None and not callable(v):
+                out[n] = v
+    for n, v in getattr(e, "__dict__", {}).items():
+        if not n.startswith("_") and n not in params and v is not None and not callable(v):
+            out.setdefault(n, v)
     return out
 
 
@@ -607,6 +662,7 @@ def _est(case):
     mk, ctx, steps, cls = _est_setup(est, seed)
     viol = []
     U.poison("nan")
+    alt = ctx.pop("alt", None)
     snap_ctx0 = {k: U.deep(v) for k, v in ctx.items()}
     heap0 = U.heap_spec([("s", [ctx["config"]])]) if ("config" in ctx and est == "mfpca_cov") else None
     e = mk()
@@ -656,6 +712,25 @@ def _est(case):
                 scores = np.array(r, copy=True)
             if r is not None:
                 earlier.append((name, r, U.deep(r, skip_cache=True)))
+            if name == "fit":
+                # what the fitted estimator hands out (covariance, eigenfunctions, mean, …) are earlier results too
+                for hn, hv in _handed_out(e).items():
+                    earlier.append((f"fit (estimator.{hn})", hv, U.deep(hv, skip_cache=True)))
+            else:
+                # the same call once more on the same fitted estimator: identical result
+                np.random.seed(777)
+                c2 = dict(ctx)
+                c2["scores"] = scores if name != "transform" else c["scores"]
+                try:
+                    r2 = f(e, c2)
+                    d = U.diff_paths(_nocache(U.deep(r, skip_cache=True)), _nocache(U.deep(r2, skip_cache=True)))
+                    if d:
+                        viol.append(_viol("repeatable", entry, f"calling {name} a second time on the same fitted estimator gives another result at {d[:3]}", ["second_call_differs"]))
+                except Exception as ex:  # noqa: BLE001
+                    viol.append(_viol("repeatable", entry, f"the second {name} raised {err_class(ex)}: {str(ex)[:80]}", ["second_call_differs"]))
+                for (en, er, es) in earlier:
+                    if U.diff_paths(es, U.deep(er, skip_cache=True)):
+                        viol.append(_viol("earlier_results_unchanged", entry, f"a repeated {name} changed the result returned earlier by {en}", ["result_mutated"]))
     # (d) whole sequence again on a fresh estimator, and refit of the same estimator
     U.poison("big")
     e2, res2 = _run_steps(mk, ctx, steps)
@@ -681,6 +756,30 @@ def _est(case):
                 viol.append(_viol("repeatable", f"{cls}.fit", f"refitting the same estimator on the same data differs at {d[:3]}", ["refit_differs"]))
         except Exception as ex:  # noqa: BLE001
             viol.append(_viol("repeatable", f"{cls}.fit", f"refitting the same estimator raised {err_class(ex)}: {str(ex)[:80]}", ["refit_differs"]))
+    # refit on OTHER (richer) data: the estimator fitted before must end up like a fresh estimator
+    # with the same configuration fitted on those data (no state or configuration carried over)
+    if steps[0][0] == "fit" and alt is not None:
+        ctx2 = dict(ctx)
+        ctx2.update(alt)
+        ctx2["scores"] = None
+        try:
+            np.random.seed(777)
+            ea = mk()
+            steps[0][1](ea, dict(ctx2))          # fresh estimator, other data
+            np.random.seed(777)
+            eb = mk()
+            cb = dict(ctx)
+            cb["scores"] = None
+            steps[0][1](eb, cb)                  # first the original data …
+            np.random.seed(777)
+            steps[0][1](eb, dict(ctx2))          # … then refit on the other data
+            da = _nocache(U.deep({k: v for k, v in ea.__dict__.items()}, skip_cache=True))
+            db = _nocache(U.deep({k: v for k, v in eb.__dict__.items()}, skip_cache=True))
+            d = U.diff_paths(da, db)
+            if d:
+                viol.append(_viol("repeatable", f"{cls}.fit", f"an estimator refitted on other data differs from a fresh estimator with the same configuration fitted on those data at {d[:3]}", ["refit_differs", "state_leak"]))
+        except Exception as ex:  # noqa: BLE001
+            viol.append(_viol("repeatable", f"{cls}.fit", f"refit on other data raised {err_class(ex)}: {str(ex)[:80]}", ["refit_differs"]))
     # (c) read-only inputs
     try:
         e3, res3 = _run_steps(mk, ctx, steps, readonly=True)
